@@ -536,7 +536,7 @@ func checkC19(c *core.Ctx) {
 		}
 	}
 	// pairs of keys from different sections, two values each
-	pairVals := map[string][]string{"bool": {`false`, `"x"`}, "posint": {`7`, `-1`}, "nonnegint": {`7`, `"x"`}, "string": {`"/bin/x"`, `5`}}
+	pairVals := map[string][]string{"bool": {`false`, `"x"`}, "posint": {`7`, `-1`, `"-1"`}, "nonnegint": {`7`, `"x"`}, "string": {`"/bin/x"`, `5`}}
 	for i, a := range c19Keys {
 		for _, b := range c19Keys[i+1:] {
 			if a.Section == b.Section {
@@ -567,6 +567,9 @@ func checkC19(c *core.Ctx) {
 		{"pull", `{"features":{"diagnostics":false}}`},
 		{"pull", `{"completion.fuzzyMatching":"false","formatting.minAlignmentColumn":40}`},
 		{"pull", `{"limits":{"maxFileSize":1000},"features":{"diagnostics":"TRUE"}}`},
+		// numbers written as strings, negative and zero: back to the default, whatever was set before
+		{"pull", `{"completion":{"maxResults":"-1"},"formatting":{"indentSize":"-2","minAlignmentColumn":"-3"}}`},
+		{"pull", `{"completion":{"maxResults":"0"},"limits":{"maxIncludeDepth":"0"}}`},
 	}
 	depth := 3
 	if c.Thorough() {
